@@ -69,6 +69,11 @@ pub fn populate(mk: &mut Mk, o: &TreeOpts) {
         let total = per * 2;
         let mut i = 0;
         while mk.next_slot(sub) + o.sub_free_slots < total {
+            if mk.next_slot(sub) == 15 {
+                // the last slot of the first directory block holds a deletable file with contents
+                mk.file(sub, "B.DAT", 0x20, &[fix(17)], 300, 7);
+                continue;
+            }
             mk.file(sub, &format!("P{:03}.BIN", i), 0x20, &[], 0, 0);
             i += 1;
         }
